@@ -44,7 +44,7 @@ CONSTANTS
 VARIABLES
   store,      \* [Ids -> Val \cup {Absent}]
   borrow,     \* [Ids -> [r : Nat, w : BOOLEAN]]
-  guards,     \* live guard id -> [ty, dy, kind]   (kind "r" shared | "w" exclusive)
+  guards,     \* live guard id -> [ty, dy, kind, cl]   (kind "r" shared | "w" exclusive; cl: is a Fetch, i.e. Clone)
   dropped,    \* idents whose destructor has run inside a World call
   returned,   \* idents handed back to the caller by remove / remove_by_id
   nextIdent,  \* next fresh ident (idents are 1..nextIdent-1)
@@ -71,7 +71,7 @@ Put(f, k, v) == [x \in DOMAIN f \cup {k} |-> IF x = k THEN v ELSE f[x]]
 Del(f, S)    == [x \in DOMAIN f \ S |-> f[x]]
 Gid(gs, i)   == IF i \in DOMAIN gs THEN gs[i] ELSE 0
 GId(g)       == <<guards[g].ty, guards[g].dy>>
-G(id, kind)  == [ty |-> id[1], dy |-> id[2], kind |-> kind]
+G(id, kind, cl) == [ty |-> id[1], dy |-> id[2], kind |-> kind, cl |-> cl]
 SeqToSet(s)  == {s[i] : i \in DOMAIN s}
 
 \* ---- the AtomicRefCell discipline ------------------------------------------
@@ -177,7 +177,7 @@ FetchCore(op, targ, id, mode, style, gs) ==
   /\ outcome' = res
   /\ IF res.k = "guard"
      THEN /\ borrow' = [borrow EXCEPT ![id] = Acq(@, mode)]
-          /\ guards' = Put(guards, Gid(gs, 1), G(id, mode))
+          /\ guards' = Put(guards, Gid(gs, 1), G(id, mode, mode = "r"))
      ELSE UNCHANGED <<borrow, guards>>
   /\ UNCHANGED <<store, dropped, returned, nextIdent>>
 Fetch(t, gs)                 == FetchCore("fetch", t, <<t, 0>>, "r", "expect", gs)
@@ -188,9 +188,10 @@ TryFetchById(targ, id, gs)    == FetchCore("try_fetch_by_id", targ, id, "r", "tr
 TryFetchMutById(targ, id, gs) == FetchCore("try_fetch_mut_by_id", targ, id, "w", "try", gs)
 
 \* ---- guards -------------------------------------------------------------------
-\* Fetch::clone (FetchMut is not Clone: compile-time)
+\* Fetch::clone.  Only `Fetch` is Clone (FetchMut, Read, Write and the meta-table items
+\* are not: compile-time), hence the `cl` attribute of a guard.
 CloneGuard(g, gs) ==
-  /\ g \in DOMAIN guards /\ guards[g].kind = "r"
+  /\ g \in DOMAIN guards /\ guards[g].cl
   /\ call' = C("clone", guards[g].ty, GId(g), 0, <<g>> \o gs, <<>>)
   /\ outcome' = Out("guard", "", <<store[GId(g)]>>)
   /\ borrow' = [borrow EXCEPT ![GId(g)] = Acq(@, "r")]
@@ -253,7 +254,7 @@ Acquired(shape, st, br) == Acquire(shape, 1, st, [br |-> br, got |-> <<>>, vs |-
 GrantAll(got, gs) ==      \* guards table after granting got[i] the id gs[i]
   [g \in DOMAIN guards \cup {Gid(gs, i) : i \in DOMAIN got} |->
      IF \E i \in DOMAIN got : Gid(gs, i) = g
-     THEN LET i == CHOOSE i \in DOMAIN got : Gid(gs, i) = g IN G(got[i].id, got[i].mode)
+     THEN LET i == CHOOSE i \in DOMAIN got : Gid(gs, i) = g IN G(got[i].id, got[i].mode, FALSE)
      ELSE guards[g]]
 
 \* World::system_data::<shape>()
